@@ -499,3 +499,254 @@ class NesterovFirstBound(Scenario):
         tol = 1e-3 * self.L
         ob.require("single_support_evaluation", exact=(iters == 0))
         ob.require("first_bound_is_support_bound", exact=(dist == want), tol=close(dist, want, tol))
+
+
+# ---------------------------------------------------------------- C19: termination and finiteness
+TERM_ALGOS = ["jolt_distance", "jolt_intersection", "libccd", "mpr_intersection", "mpr_penetration", "original",
+              "nesterov", "nesterov_acc", "prim", "prim_acc", "epa"]
+
+
+class Termination(PairScenario):
+    """Every narrow-phase entry point returns within 1000 support evaluations, raises nothing
+    (except EPA's capacity assertion) and returns finite values."""
+    support_limit = 64
+
+    def colliders(self, cx, inp):
+        a, b = PairScenario.colliders(self, cx, inp)
+        if self.args.get("same_object"):
+            return a, a
+        return a, b
+
+    def call(self, cx, inp):
+        import distance3d.gjk as G
+        import distance3d.mpr as M
+        import distance3d.epa as E
+        a, b = self.colliders(cx, inp)
+        if not cx.symbolic:
+            self.support_limit = 1000          # concrete replay: count up to the property's own bound
+        cnt = self.count_supports(*([a] if a is b else [a, b]))
+        algo = self.algo
+        if algo == "jolt_distance":
+            r = G.gjk_distance_jolt(a, b)[:3]
+        elif algo == "jolt_intersection":
+            r = G.gjk_intersection_jolt(a, b)
+        elif algo == "libccd":
+            r = G.gjk_intersection_libccd(a, b)
+        elif algo == "mpr_intersection":
+            r = M.mpr_intersection(a, b)
+        elif algo == "mpr_penetration":
+            r = M.mpr_penetration(a, b)
+        elif algo == "original":
+            r = G.gjk_distance_original(a, b)[:3]
+        elif algo == "nesterov":
+            r = G.gjk_nesterov_accelerated(a, b)[:2]
+        elif algo == "nesterov_acc":
+            r = G.gjk_nesterov_accelerated(a, b, use_nesterov_acceleration=True)[:2]
+        elif algo == "prim":
+            r = G.gjk_nesterov_accelerated_primitives(a, b)[:2]
+        elif algo == "prim_acc":
+            r = G.gjk_nesterov_accelerated_primitives(a, b, use_nesterov_acceleration=True)[:2]
+        elif algo == "epa":
+            d, pa, pb, simplex = G.gjk_distance_jolt(a, b)
+            if pa is not None and not is_symbolic(d) and d == 0.0 or (pa is not None and is_symbolic(d) and bool(d == 0)):
+                n_filled = sum(1 for row in simplex if not any(isinstance(x, core._Uninit) for x in row))
+                if n_filled == 4:
+                    r = E.epa(simplex, a, b)[0::2]
+                else:
+                    r = ["simplex not a tetrahedron", n_filled]
+            else:
+                r = ["no overlap"]
+        else:
+            raise KeyError(algo)
+        self._n_support = cnt["n"]
+        return [r, int(cnt["n"])]
+
+    def observable(self, out):
+        return []
+
+    def check(self, cx, inp, out, ob):
+        ob.require("support_evals_le_1000", exact=(out[1] <= 1000))
+        # finiteness: in the real model every value is finite unless a division by zero / negative radicand occurred,
+        # which the engine reports as definedness findings; on the concrete replay check it directly
+        if not cx.symbolic:
+            from symx.harness import flatten
+            import math
+            flat = [x for x in flatten(out[0]) if isinstance(x, float)]
+            ok = all(math.isfinite(x) or abs(x) > 1e300 for x in flat)
+            ob.require("outputs_finite", exact=ok)
+
+
+TERM_PAIRS = [
+    ({"type": "box", "size": [1.0, 1.0, 1.0]}, {"type": "box", "size": [1.0, 1.0, 1.0]}),
+    ({"type": "hull", "mesh": "tetra"}, {"type": "hull", "mesh": "tetra"}),
+    ({"type": "flat", "pts": "square"}, {"type": "flat", "pts": "square"}),
+    ({"type": "flat", "pts": "segment"}, {"type": "flat", "pts": "segment"}),
+    ({"type": "flat", "pts": "point"}, {"type": "flat", "pts": "point"}),
+    ({"type": "box", "size": [0.01, 0.01, 100.0]}, {"type": "hull", "mesh": "octa"}),       # needle, aspect 1e4
+    ({"type": "box", "size": [100.0, 100.0, 100.0]}, {"type": "box", "size": [0.01, 0.01, 0.01]}),   # nested, 1e4 size ratio
+    ({"type": "mesh", "mesh": "cubocta_raw"}, {"type": "flat", "pts": "triangle"}),
+    ({"type": "flat", "pts": "triangle", "dup": True}, {"type": "mesh", "mesh": "cube"}),
+]
+TERM_SWEEPS = [
+    {"kind": "T1", "u": X, "o": [0.0, 0.0, 0.0]},                 # through the identical placement
+    {"kind": "T1", "u": [1.0, 1.0, 0.0], "o": [0.0, 0.0, 1.0]},   # coplanar / touching lattice placements
+    {"kind": "T1", "u": Z, "o": [0.25, 0.125, 0.0], "R": PR.RZ345},
+]
+
+
+def termination_jobs(tier, seed):
+    J = []
+    for ai, algo in enumerate(TERM_ALGOS):
+        for pi, (a, b) in enumerate(TERM_PAIRS):
+            if algo.startswith("prim") and not (a["type"] == "box" and b["type"] == "box"):
+                continue
+            for si, sw in enumerate(TERM_SWEEPS):
+                if tier == "quick" and (ai + pi + si + seed) % 3 != 0:
+                    continue
+                J.append({"family": algo, "args": {"a": a, "b": b, "sweep": sw, "a_pose": 0, "algo": algo}})
+            if pi < 3 and (tier != "quick" or (ai + pi) % 2 == 0):
+                J.append({"family": algo + ":same_object", "args": {"a": a, "b": a, "sweep": {"kind": "T1", "u": X, "o": [0.0, 0.0, 0.0]},
+                                                                   "a_pose": 0, "algo": algo, "same_object": True}})
+    return J
+
+
+# ---------------------------------------------------------------- C07 / C08: penetration
+def minkowski_facets(VA, VB0):
+    """Facets (unit normal, offset) of conv{a - b}: computed once, concretely, with scipy (independent oracle)."""
+    from scipy.spatial import ConvexHull
+    D = np.array([[a[k] - b[k] for k in range(3)] for a in VA for b in VB0], dtype=float)
+    ch = ConvexHull(D)
+    seen, out = set(), []
+    for eq in ch.equations:
+        n, off = eq[:3], -eq[3]
+        key = tuple(np.round(np.append(n, off), 9))
+        if key in seen:
+            continue
+        seen.add(key)
+        out.append(([float(x) for x in n], float(off)))
+    return out
+
+
+class Penetration(PairScenario):
+    """EPA (on the simplex handed over by the Jolt GJK) or MPR penetration against the exact
+    piecewise-linear penetration depth of the Minkowski difference (translation sweeps)."""
+    support_limit = 128
+    budget_s = 150
+    max_decisions = 3000
+
+    def build(self, cx):
+        inp = PairScenario.build(self, cx)
+        R, t = inp["MB"]
+        VA = self.A.world_vertices(inp["MA"])
+        VB0 = self.B.world_vertices((R, [0.0, 0.0, 0.0]))
+        fa = [[float(c) for c in v] for v in VA]
+        fb = [[float(c) for c in v] for v in VB0]
+        inp["facets"] = minkowski_facets(fa, fb)
+        inp["c"] = t
+        return inp
+
+    def depth_of(self, inp, shift):
+        c = ADD(inp["c"], shift)
+        return MIN(*[off - DOT(n, c) for n, off in inp["facets"]])
+
+    def call(self, cx, inp):
+        import distance3d.gjk as G
+        import distance3d.mpr as M
+        import distance3d.epa as E
+        a, b = PairScenario.colliders(self, cx, inp)
+        cnt = self.count_supports(a, b)
+        if self.algo == "epa":
+            # observe how many simplex points GJK ended with (it returns its whole 4x3 buffer regardless)
+            import distance3d.gjk._gjk_jolt as J
+            seen = {}
+            orig_ccp = J.calculate_closest_points
+
+            def spy(Y, P, Q, n_points):
+                seen["n"] = int(n_points)
+                return orig_ccp(Y, P, Q, n_points)
+            J.calculate_closest_points = spy
+            try:
+                d, pa, pb, simplex = G.gjk_distance_jolt(a, b)
+            finally:
+                J.calculate_closest_points = orig_ccp
+            overlap = bool(d == 0) if is_symbolic(d) else d == 0.0
+            if not overlap:
+                return ["no overlap"]
+            if seen.get("n", 4) < 4:
+                # fewer than 4 valid rows: the rest of the buffer is stale or uninitialised (np.empty)
+                for i in range(seen["n"], 4):
+                    if any(isinstance(x, core._Uninit) for x in simplex[i]):
+                        simplex[i] = simplex[seen["n"] - 1]
+                mtv, faces, ok = E.epa(simplex, a, b)
+                return ["epa", list(mtv), bool(ok), True]
+            n_filled = sum(1 for row in simplex if not any(isinstance(x, core._Uninit) for x in row))
+            if n_filled != 4:
+                return ["simplex not a tetrahedron"]
+            rows = [list(simplex[i]) for i in range(4)]
+            vol = DOT(SUB(rows[1], rows[0]), PR.CROSS(SUB(rows[2], rows[0]), SUB(rows[3], rows[0])))
+            degenerate = bool(vol == 0)         # GJK stopped with the origin on a face / edge: no tetrahedron to start from
+            mtv, faces, ok = E.epa(simplex, a, b)
+            return ["epa", list(mtv), bool(ok), degenerate]
+        hit, depth, pdir, pos = M.mpr_penetration(a, b)
+        if not hit:
+            return ["no overlap"]
+        return ["mpr", depth, list(pdir), list(pos)]
+
+    def observable(self, out):
+        if out[0] == "epa":
+            return [out[0], NORM2(out[1]), out[2]]
+        if out[0] == "mpr":
+            return [out[0], out[1]]
+        return [out[0]]
+
+    def check(self, cx, inp, out, ob):
+        L = self.L
+        if out[0] == "epa":
+            mtv, ok = out[1], out[2]
+            sfx = "_degenerate_simplex" if out[3] else ""
+            ob.require("epa_success_on_small_polytopes", exact=bool(ok))
+            if not ok:
+                return
+            tol = 1e-6 * L * 4.0     # facet normals of the oracle are rounded to float64
+            depth = self.depth_of(inp, [0.0, 0.0, 0.0])
+            mm = NORM2(mtv)
+            ob.require("mtv_length_is_penetration_depth" + sfx,
+                       tol=AND(mm <= (depth + tol) * (depth + tol), OR(depth <= tol, mm >= (depth - tol) * (depth - tol))))
+            after = self.depth_of(inp, mtv)
+            ob.require("translated_by_mtv_touches" + sfx, tol=AND(after <= tol, after >= -tol))
+        elif out[0] == "mpr":
+            depth_r, pdir, pos = out[1], out[2], out[3]
+            tol = 2e-3 * L
+            dd = NORM2(pdir)
+            ob.require("depth_nonneg", exact=(depth_r >= 0))
+            ob.require("direction_unit_or_zero", exact=OR(dd == 1.0, AND(dd == 0, depth_r == 0)),
+                       tol=OR(close(dd, 1.0, 1e-9), AND(dd <= 1e-18, depth_r <= 1e-9)))
+            depth = self.depth_of(inp, [0.0, 0.0, 0.0])
+            ob.require("depth_not_below_true_depth", tol=(depth_r >= depth - tol))
+            after = self.depth_of(inp, SCALE(depth_r, pdir))
+            ob.require("residual_overlap_small", tol=(after <= tol))
+            (SA, MA), (SB, MB) = self.sets(inp)
+            ob.require("contact_position_in_A", tol=SA.member(MA, pos, tol))
+            ob.require("contact_position_in_B", tol=SB.member(MB, pos, tol))
+
+
+PEN_PAIRS = [(0, 0), (0, 1), (1, 2), (3, 0), (7, 2), (8, 11)]
+PEN_SWEEPS = [
+    {"kind": "T1", "u": X, "o": [0.0, 0.125, 0.25], "range": 1.5},
+    {"kind": "T1", "u": [1.0, 1.0, 0.0], "o": [0.0, 0.0, 0.5], "range": 1.5},
+    {"kind": "T1", "u": Z, "o": [0.25, 0.125, 0.0], "R": PR.RZ345, "range": 1.5},
+    {"kind": "T1", "u": [0.0, 1.0, 1.0], "o": [0.25, 0.0, 0.0], "R": PR.RGEN, "range": 1.5},
+    {"kind": "T1", "u": X, "o": [0.0, 0.0, 0.0], "range": 1.5},      # through the identical placement
+]
+
+
+def penetration_jobs(tier, seed, algo):
+    J = []
+    P = POLY_CORPUS
+    pairs = PEN_PAIRS if tier == "quick" else [(i, j) for i in (0, 1, 2, 3, 7, 8, 9, 11) for j in (0, 1, 2, 3, 7, 8, 9, 11)]
+    for pi, (i, j) in enumerate(pairs):
+        for si, sw in enumerate(PEN_SWEEPS):
+            if tier == "quick" and (pi + si) % 2 == 1:      # seed-independent: known findings are listed per scenario
+                continue
+            J.append({"family": "%s:%d_%d" % (algo, i, j), "args": {"a": P[i], "b": P[j], "sweep": sw, "a_pose": (pi + si) % 2, "algo": algo}})
+    return J
